@@ -85,9 +85,18 @@ func runC03(cfg config) {
 		if pat.ManagingOrganization == nil || pat.ManagingOrganization.GetOrganizationId() == nil {
 			pat.ManagingOrganization = &dtpb.Reference{Reference: &dtpb.Reference_OrganizationId{OrganizationId: &dtpb.ReferenceId{Value: "org1", History: &dtpb.Id{Value: "3"}}}}
 		}
+		// extensions in an order that an in-place filter would disturb, on the resource and on an element
+		mkx := func(u string) *dtpb.Extension {
+			return &dtpb.Extension{Url: &dtpb.Uri{Value: "http://example.org/" + u}, Value: &dtpb.Extension_ValueX{Choice: &dtpb.Extension_ValueX_StringValue{StringValue: &dtpb.String{Value: u}}}}
+		}
+		pat.Extension = []*dtpb.Extension{mkx("first"), mkx("second"), mkx("third"), mkx("second")}
 		if len(pat.Name) == 0 {
 			pat.Name = []*dtpb.HumanName{{Family: &dtpb.String{Value: "Doe"}, Given: []*dtpb.String{{Value: "Ann"}}}}
 		}
+		if len(pat.Name) < 2 {
+			pat.Name = append(pat.Name, &dtpb.HumanName{Family: &dtpb.String{Value: "Roe"}, Given: []*dtpb.String{{Value: "Cy"}, {Value: "Di"}}})
+		}
+		pat.Name[0].Extension = []*dtpb.Extension{mkx("first"), mkx("second")}
 		for pi, src := range progs {
 			e, err := fhirpath.Compile(src, compopts.WithExperimentalFuncs())
 			if err != nil {
